@@ -157,13 +157,20 @@ def execute(plan: dict, scratch: str, replay: Optional[dict] = None) -> dict:
                 # the lock object - to re-synchronise after a failed renewal - and learn of a takeover later)
                 reads = [(g, b) for (g, a, b) in lr if a == fl["actor"] and g < fl["gstep"]]
                 # last request of this committer on the lock key before the flip
-                last_lock = [h for h in w.store.history if h[1] == fl["actor"] and h[0] < fl["gstep"]
-                             and h[3].endswith(".lock") and h[2] == "get"]
+                # (evidence of ownership right before the commit point: a read-back, or a conditional write of its own
+                #  that succeeded - either proves the lock object still named this committer at that instant)
+                metas = [h[0] for h in w.store.history if h[1] == fl["actor"] and h[0] < fl["gstep"] and h[2] == "put"
+                         and h[3].endswith(".metadata.json")]
+                g_meta = metas[-1] if metas else -1      # the fence belongs AFTER this attempt's metadata write
+                last_lock = [h for h in w.store.history if h[1] == fl["actor"] and g_meta < h[0] < fl["gstep"]
+                             and h[3].endswith(".lock") and (h[2] == "get" or (h[2] == "put" and h[4] == "ok"))]
                 if not last_lock:
                     V.append({"clause": "S.no_fence", "flip": fl["n"],
                               "msg": f"flip {fl['n']} by {fl['actor']}: no ownership read-back of the lock before the pointer write"})
                     continue
                 g_last, _a, _op, _k, outcome = last_lock[-1]
+                if _op == "put":
+                    continue       # its own conditional lock write succeeded right before the flip
                 body = next((b for (g, b) in reversed(reads) if g == g_last), None)
                 if outcome != "ok" or body != myid:
                     V.append({"clause": "S.flip_after_failed_fence", "flip": fl["n"],
